@@ -462,3 +462,7 @@ UNITS.append(Unit("C03", "jsonargparse._core:ArgumentParser._parse_defaults_and_
 
 from contracts.share import carried as _carried  # noqa: E402
 UNITS += _carried("C03")
+
+# registered types: the failures announced for a deserializer when the caller names none (so that RegisteredType.deserializer turns them into a rejected value)
+from contracts.share import shared as _c03_shared  # noqa: E402
+UNITS += _c03_shared("C03", "contracts.c20", "typing:register_type", "RegisteredType.deserializer")
